@@ -110,6 +110,13 @@ func (r *Result) Inconc(format string, a ...any) {
 	r.Counters["inconclusive"]++
 }
 
+// Fatal records an observation that makes the whole run inconclusive (infrastructure failed, a
+// monitor could not observe anything).
+func (r *Result) Fatal(format string, a ...any) {
+	r.Inconc(format, a...)
+	r.Counters["inconclusive_fatal"]++
+}
+
 // Merge folds o into r.
 func (r *Result) Merge(o *Result) {
 	r.Evaluations += o.Evaluations
